@@ -34,7 +34,7 @@ func TestVerif_C11(t *testing.T) {
 	res.assume("serialisability is decided structurally: sessions of different associations share only reference-counted objects, so every serial order yields the same ID-agnostic image; equality with that image is equality with 'some serial order'")
 	res.assume("all requests are inside pool limits and inside the supported envelope, so each must be accepted as it would be alone")
 	res.assume("every data race reported in this workload (concurrent request streams of different associations only; no teardown, heartbeats off) is attributed to this property")
-	nruns := vEnv.pick(48, 2400)
+	nruns := vEnv.pick(96, 2400)
 	for ri := 0; ri < nruns; ri++ {
 		if !vEnv.mine(ri) {
 			continue
@@ -239,7 +239,7 @@ func TestVerif_C11(t *testing.T) {
 // to a request it did not send, and every peer gets its association (requests are retried like a real
 // control plane does).
 func c11NewPeers(res *vResult) {
-	n := vEnv.pick(36, 2000)
+	n := vEnv.pick(72, 2000)
 	for ri := 0; ri < n; ri++ {
 		idx := 7000000 + ri
 		if !vEnv.mine(idx) {
